@@ -329,7 +329,7 @@ impl Check for NftEnumerable {
         if tier == Tier::Quick {
             1200
         } else {
-            30000
+            25000
         }
     }
     fn components(&self) -> serde_json::Value {
